@@ -568,14 +568,14 @@ fn main() {
         }
     }
     cs_read_case(&mut o, &[]);
-    for _ in 0..bud(150, 5000) { cs_write_case(&mut o, counter(&mut r, true)); let n = r.below(11) as usize; let b = r.bytes(n); cs_read_case(&mut o, &b); }
+    for _ in 0..bud(150, 2000) { cs_write_case(&mut o, counter(&mut r, true)); let n = r.below(11) as usize; let b = r.bytes(n); cs_read_case(&mut o, &b); }
 
     // node / entry codecs
-    let nc = bud(40, 600);
+    let nc = bud(40, 300);
     codec_cases::<V1>(&mut o, &mut r, nc);
     codec_cases::<V2>(&mut o, &mut r, nc);
     codec_cases::<V3>(&mut o, &mut r, nc);
-    for _ in 0..bud(80, 1000) { let g = any_data(&mut r, 1); leaf_count_case(&mut o, &g); }
+    for _ in 0..bud(80, 500) { let g = any_data(&mut r, 1); leaf_count_case(&mut o, &g); }
     for (s, e) in [(0u64, u64::MAX), (1, u64::MAX), (0, u64::MAX - 1), (5, 4), (u64::MAX, u64::MAX), (u64::MAX, 0), (0, 0), (7, 8), (4, 7), (0, 1 << 63)] {
         let mut g = any_data(&mut r, 1); g.sh = s; g.eh = e; leaf_count_case(&mut o, &g);
         let w = node_write_case::<V1>(&mut o, &g); node_read_case::<V1>(&mut o, g.bid, &w);
@@ -584,7 +584,7 @@ fn main() {
     }
 
     // combine: mostly fitting, some on the overflow boundary, some with different branch ids
-    for i in 0..bud(90, 1500) {
+    for i in 0..bud(90, 800) {
         let ext = i % 3 == 0;
         macro_rules! go { ($v:ty, $k:expr) => {{
             let l = norm($k, leaf(&mut r, 3, 10, ext));
@@ -599,16 +599,16 @@ fn main() {
 
     // trees: exhaustive single operations on views for every size, short histories with hash tables,
     // long histories (several hundred leaves) with structure and non-hash fields
-    let ex = if big { 130 } else { 33 };
+    let ex = if big { 100 } else { 33 };
     catch(|| exhaustive_views::<V1>(&mut o, &mut r, ex, true));
     catch(|| exhaustive_views::<V2>(&mut o, &mut r, if big { ex } else { 17 }, ex <= 40));
     catch(|| exhaustive_views::<V3>(&mut o, &mut r, ex, big));
-    for i in 0..bud(24, 400) {
+    for i in 0..bud(24, 200) {
         let ext = i % 4 == 0;
         let m = 2 + r.below(22) as usize;
         match i % 3 { 0 => { catch(|| history::<V1>(&mut o, &mut r, true, m, ext, i % 2 == 0)); }, 1 => { catch(|| history::<V2>(&mut o, &mut r, true, m, ext, i % 2 == 0)); }, _ => { catch(|| history::<V3>(&mut o, &mut r, true, m, ext, i % 2 == 0)); } }
     }
-    for i in 0..bud(3, 36) {
+    for i in 0..bud(3, 12) {
         let m = if big { *r.pick(&[70usize, 130, 260, 300, 520]) } else { [300usize, 130, 70][i % 3] };
         match i % 3 { 0 => { catch(|| history::<V1>(&mut o, &mut r, false, m, false, false)); }, 1 => { catch(|| history::<V2>(&mut o, &mut r, false, m, false, false)); }, _ => { catch(|| history::<V3>(&mut o, &mut r, false, m, i % 2 == 0, false)); } }
     }
